@@ -102,7 +102,12 @@ def handle (kind : String) (args : List String) (impl : String) : String :=
       -- member's removal latch is closed while every removed member's is
       let implH := ((impl.splitOn " X[").headD "").splitOn "|" |>.map stripRet
       let agree := implH.length == ss.length && (implH.zip ss).all fun (i, e) => e == "~" || i == e
-      let sp := if agree then "" else s!"usable-hosts expected={"|".intercalate ss}"
+      -- `retired_objects_are_latched` / F-06a: whatever was stored and is not any more has its removal latch closed
+      -- (its established connections are closed), and no current member's latch is
+      let implX := ((impl.splitOn " X[").getD 1 "").dropEnd 1 |>.toString
+      let latchOk := ("X[" ++ implX ++ "]") == showRemoved sf ids
+      let sp := if !agree then s!"usable-hosts expected={"|".intercalate ss}"
+                else if !latchOk then s!"removal-latches expected={showRemoved sf ids}" else ""
       let d := if impl == m then "" else s!"DIFF model={m} impl={impl}"
       let spS := if sp == "" then "" else s!"SPEC {sp} impl={impl}"
       if d == "" && spS == "" then "ok" else d ++ (if d != "" && spS != "" then " ; " else "") ++ spS
